@@ -22,7 +22,7 @@ LEVEL = "model_checking"
 RULE = (
     "(i) alphabet per evaluator configuration c (quick: c1 = UNMATCHED + default metric lists, c2 = UNMATCHED + explicit lists, groups, decision, asymmetric handler; thorough: + c0 = all defaults (MATCHED), c3 = SEMANTIC): "
     "newE(c), evaluate(x0|x1|x2), evaluate(x0, save_group_times=True), evaluate(x0, result_all=False, log_times=True, verbose=True), read resulting_metric_keys, save_to_config, new aggregator(log_times F|T), aggregator.evaluate; "
-    "+ new default EdgeCaseHandler, direct panoptic_evaluate with defaults, construction (+ attempted use) of two evaluators with unusual argument combinations (decision metric outside the default metric list; RVD decision at 0 with all flags); ALL histories of length <= 3 (thorough <= 4 on the quick alphabet), each in a pristine forked process; "
+    "+ new default EdgeCaseHandler, direct panoptic_evaluate with defaults, construction (+ attempted use) of two evaluators with unusual argument combinations (decision metric outside the default metric list; RVD decision at 0 with all flags; default instance metrics with other global metrics); ALL histories of length <= 3 (thorough <= 4 on the quick alphabet), each in a pristine forked process; "
     "semantic histories: ALL histories of length <= 4 (thorough 5) over {new evaluator, new evaluator sharing the approximator object, evaluate 1-D / 2-D / 3-D input with diagonal contacts on either evaluator}; "
     "(ii) result_all{T,F} x save_group_times{None,T,F} x log_times{None,T,F} x verbose{None,T,F} x constructor flags 2^3 x 3 inputs x 2 configurations; "
     "(iii) all pairs of G1(4,2) with >= 2 tasks: serial vs every task execution order of each pool call; 64 (thorough 512) inputs with the real multiprocessing.Pool. "
@@ -75,7 +75,7 @@ def alphabet(configs):
     for c in configs:
         ops += [("newE", c), ("eval", c, 0, "default"), ("eval", c, 1, "default"), ("eval", c, 2, "default"), ("eval", c, 0, "sgt"), ("eval", c, 0, "quiet"),
                 ("keys", c), ("save", c), ("newA", c, False), ("newA", c, True), ("aeval", c, 0)]
-    ops += [("newH",), ("direct",), ("newOdd", 0), ("newOdd", 1)]
+    ops += [("newH",), ("direct",), ("newOdd", 0), ("newOdd", 1), ("newOdd", 2)]
     return ops
 
 
@@ -87,6 +87,8 @@ def new_odd(k):
 
     if k == 0:  # decision metric that is not among the (default) instance metrics
         return Panoptica_Evaluator(expected_input=ITYPE["UNMATCHED"], instance_matcher=NaiveThresholdMatching(), decision_metric=Metric.clDSC, decision_threshold=0.5)
+    if k == 2:  # like c1 (default instance metrics) but with other global metrics: anything cached per metric selection must keep them apart
+        return Panoptica_Evaluator(expected_input=ITYPE["UNMATCHED"], instance_matcher=NaiveThresholdMatching(), global_metrics=[Metric.DSC, Metric.IOU, Metric.RVD])
     # global metric list given as the default of another call + log flags
     return Panoptica_Evaluator(expected_input=ITYPE["MATCHED"], decision_metric=Metric.RVD, decision_threshold=0.0, save_group_times=True, log_times=True, verbose=True)
 
@@ -305,6 +307,7 @@ def _history_child(hist, base):
             elif op[0] == "newOdd":
                 odd = new_odd(op[1])
                 try:
+                    odd.resulting_metric_keys
                     odd.evaluate(X[0][0].copy(), X[0][1].copy(), verbose=False)
                 except Exception:
                     pass
